@@ -329,6 +329,18 @@ class Ctx:
         if bad:
             ok = False
             self.proof_failures.append('forbidden constructs: ' + '; '.join(bad[:10]))
+        if ok and self.tier == 'thorough' and os.environ.get('VERIF_NO_COQCHK') != '1':
+            # independent re-check of the compiled files and everything they depend on
+            for pf in prop_files:
+                mod = 'BV.' + pf[:-2].replace('/', '.')
+                r = _run(['coqchk', '-Q', COQ, 'BV', '-o', '-silent', mod], cwd=COQ, timeout=3000)
+                out = r.stdout + r.stderr
+                summary = out[out.find('CONTEXT SUMMARY'):] if 'CONTEXT SUMMARY' in out else _tail(out, 20)
+                self.extra.setdefault('coqchk', {})[pf] = ' '.join(summary.split())[:2000]
+                self.obligations.append({'name': f'coqchk {mod}', 'ok': r.returncode == 0})
+                if r.returncode != 0:
+                    ok = False
+                    self.proof_failures.append(f'coqchk {mod} failed: ' + _tail(out, 10))
         return ok
 
     def coq_eval(self, requires: list[str], exprs: list[str], preamble: str = '',
